@@ -47,6 +47,9 @@ class KVBench:
             dump = impl.dump()
             if out[-1] != dump:
                 self.report.correspondence_break("kv.WriterThread", {"events": events}, {"n": len(dump)}, {"n": len(out[-1])})
+                # the model's store is not the implementation's: from here on the reference answers come from the Python
+                # reference over the implementation's own store, not from the model
+                self.in_model = False
         self.stored = impl.stored()
 
     def validate(self, fdict):
